@@ -28,6 +28,9 @@ pub struct Expect {
     /// None = absent; Some(None) = present with unchecked (normalised) values; Some(Some(v)) = these values
     pub color: Option<Option<[f32; 3]>>,
     pub intensity: Option<Option<f32>>,
+    /// 0 = compare bit-exactly; otherwise absolute tolerance (normalised values, C13's formula)
+    pub color_tol: f32,
+    pub intensity_tol: f32,
     pub row: i64,
     pub column: i64,
     /// values too extreme for a meaningful numeric comparison: only states are compared
@@ -53,6 +56,45 @@ fn int_of(v: &Val) -> Option<i64> {
     }
 }
 
+/// The range normalisation works with: the point cloud's limits when both ends are given (as a
+/// pair of integers, singles or doubles), otherwise the range of the record's data type. None
+/// where nothing is judged: limits of mixed or scaled-integer kind, a degenerate, reversed or
+/// non-finite range (C13's corner cases).
+fn norm_range(dt: &DType, min: Option<Lim>, max: Option<Lim>) -> Option<(f64, f64)> {
+    let (lo, hi) = match (min, max) {
+        (Some(Lim::I(a)), Some(Lim::I(b))) => (a as f64, b as f64),
+        (Some(Lim::S(a)), Some(Lim::S(b))) => (a.f() as f64, b.f() as f64),
+        (Some(Lim::D(a)), Some(Lim::D(b))) => (a.f(), b.f()),
+        (Some(_), Some(_)) => return None,
+        _ => match dt {
+            DType::Int { min, max } => (*min as f64, *max as f64),
+            DType::Scaled { min, max, scale, offset } => {
+                let a = *min as f64 * scale.f() + offset.f();
+                let b = *max as f64 * scale.f() + offset.f();
+                (a.min(b), a.max(b))
+            }
+            DType::Single { min, max } => (min.map(|v| v.f()).unwrap_or(f32::MIN) as f64, max.map(|v| v.f()).unwrap_or(f32::MAX) as f64),
+            DType::Double { min, max } => (min.map(|v| v.f()).unwrap_or(f64::MIN), max.map(|v| v.f()).unwrap_or(f64::MAX)),
+        },
+    };
+    let w = hi - lo;
+    if !w.is_finite() || !lo.is_finite() || !hi.is_finite() || w <= 0.0 {
+        return None;
+    }
+    Some((lo, hi))
+}
+
+/// (value - min) / (max - min) clamped to the unit interval, for a finite stored value
+fn normalised(v: f64, range: Option<(f64, f64)>) -> Option<f32> {
+    let (lo, hi) = range?;
+    if !v.is_finite() {
+        return None;
+    }
+    Some(((v.clamp(lo, hi) - lo) / (hi - lo)) as f32)
+}
+
+pub const NORM_TOL: f32 = 2e-6;
+
 fn rotate(q: &[f64; 4], v: [f64; 3]) -> [f64; 3] {
     // rotation matrix of a unit quaternion (w, x, y, z)
     let (w, x, y, z) = (q[0], q[1], q[2], q[3]);
@@ -73,6 +115,8 @@ pub fn view(pc: &PcRead, p: &Point, o: &ViewOpts) -> Result<Expect, ViewError> {
     let proto = &pc.proto;
     let real = |i: usize| p[i].real(&proto[i].dt);
     let mut loose = false;
+    let mut color_tol = 0.0f32;
+    let mut intensity_tol = 0.0f32;
     // --- Cartesian
     let cart_idx = match (idx(proto, CX), idx(proto, CY), idx(proto, CZ)) {
         (Some(a), Some(b), Some(c)) => Some((a, b, c)),
@@ -140,7 +184,19 @@ pub fn view(pc: &PcRead, p: &Point, o: &ViewOpts) -> Result<Expect, ViewError> {
         Some((a, b, c)) => match col_state {
             0 => {
                 if o.norm_color {
-                    Some(None)
+                    let lim = |k: usize| pc.meta.color_limits.as_ref().and_then(|l| l.0[k]);
+                    let n = [
+                        normalised(real(a), norm_range(&proto[a].dt, lim(0), lim(1))),
+                        normalised(real(b), norm_range(&proto[b].dt, lim(2), lim(3))),
+                        normalised(real(c), norm_range(&proto[c].dt, lim(4), lim(5))),
+                    ];
+                    match n {
+                        [Some(x), Some(y), Some(z)] => {
+                            color_tol = NORM_TOL;
+                            Some(Some([x, y, z]))
+                        }
+                        _ => Some(None),
+                    }
                 } else {
                     Some(Some([real(a) as f32, real(b) as f32, real(c) as f32]))
                 }
@@ -166,7 +222,17 @@ pub fn view(pc: &PcRead, p: &Point, o: &ViewOpts) -> Result<Expect, ViewError> {
         Some(i) => match int_state {
             0 => {
                 if o.norm_intensity {
-                    Some(None)
+                    let (lo, hi) = match &pc.meta.intensity_limits {
+                        Some(l) => (l.min, l.max),
+                        None => (None, None),
+                    };
+                    match normalised(real(i), norm_range(&proto[i].dt, lo, hi)) {
+                        Some(v) => {
+                            intensity_tol = NORM_TOL;
+                            Some(Some(v))
+                        }
+                        None => Some(None),
+                    }
                 } else {
                     Some(Some(real(i) as f32))
                 }
@@ -227,6 +293,7 @@ pub fn view(pc: &PcRead, p: &Point, o: &ViewOpts) -> Result<Expect, ViewError> {
     if o.i2c && color.is_none() {
         if let Some(i) = intensity {
             color = Some(i.map(|v| [v, v, v]));
+            color_tol = intensity_tol;
         }
     }
     // --- pose on valid Cartesian coordinates: rotation then translation
@@ -267,7 +334,7 @@ pub fn view(pc: &PcRead, p: &Point, o: &ViewOpts) -> Result<Expect, ViewError> {
     carts.extend(cart_alt);
     let mut sphs = vec![sph];
     sphs.extend(sph_alt);
-    Ok(Expect { cart: carts, sph: sphs, color, intensity, row, column, loose, mag })
+    Ok(Expect { cart: carts, sph: sphs, color, intensity, color_tol, intensity_tol, row, column, loose, mag })
 }
 
 fn close(a: f64, b: f64, scale: f64) -> bool {
@@ -308,7 +375,7 @@ pub fn check(got: &SPoint, want: &Expect) -> Option<String> {
         (Some(_), Some(None)) => {}
         (Some(g), Some(Some(w))) => {
             for k in 0..3 {
-                if !(g[k].to_bits() == w[k].to_bits() || (g[k].is_nan() && w[k].is_nan())) {
+                if !(g[k].to_bits() == w[k].to_bits() || (g[k].is_nan() && w[k].is_nan()) || (want.color_tol > 0.0 && (g[k] - w[k]).abs() <= want.color_tol)) {
                     return Some(format!("colour: got {g:?}, expected {w:?}"));
                 }
             }
@@ -319,7 +386,7 @@ pub fn check(got: &SPoint, want: &Expect) -> Option<String> {
         (None, None) => {}
         (Some(_), Some(None)) => {}
         (Some(g), Some(Some(w))) => {
-            if !(g.to_bits() == w.to_bits() || (g.is_nan() && w.is_nan())) {
+            if !(g.to_bits() == w.to_bits() || (g.is_nan() && w.is_nan()) || (want.intensity_tol > 0.0 && (g - w).abs() <= want.intensity_tol)) {
                 return Some(format!("intensity: got {g:?}, expected {w:?}"));
             }
         }
